@@ -4,7 +4,9 @@ Driver glue for C12.
   `C12 run <op> <op> …`   ops: `ab<k>` `ad<k>` `aa<k>` (addTrigger before/during/after, key k),
                           `xb<k>` `xd<k>` `xa<k>` (removeTrigger), `f` (fireEvent),
                           `rn` `rr` `rd<d>` (running trigger returns None / raises / returns Deferred d),
-                          `d<d>` (fire Deferred d)
+                          `d<d>` (fire Deferred d — at top level, or from inside the running trigger's
+                          body when consumed there; the harness sends `e<d>` (errback) as `d<d>` and every
+                          raising return `rk`/`rs`/`rb`/`rg` (BaseException classes) as `rr`)
   → `<tok>,<tok>,…|B=<k>;…|D=…|A=…|S=<0|1>|O=<0|1>`, or `<tok>,…|incomplete` when a trigger is still
     executing at the end of the history
   one token per consumed op (`+` added, `x` removed, `w` warned, `V` ValueError, `F` fired,
